@@ -139,8 +139,9 @@ Inductive pyobj :=
 | OBuiltin (f : fid)                     (* types.BuiltinFunctionType *)
 | OBound (inner : pyobj)                 (* types.MethodType; inner = __func__ *)
 | OProperty (fget : option pyobj) (has_fset has_fdel : bool)
-| OWrapper (inner : pyobj)               (* any object with __wrapped__ = inner *)
-| OOther.
+| OWrapper (qn : option string) (inner : pyobj)
+                                         (* any object with __wrapped__ = inner; qn = its own __qualname__ if it has one *)
+| OOther (qn : option string).           (* anything else; qn = its __qualname__ if it has one *)
 
 Inductive lookup :=
 | LNoModule                              (* import_module raised ModuleNotFoundError *)
@@ -156,7 +157,7 @@ Fixpoint pyobj_eqb (a b : pyobj) {struct a} : bool :=
   | OFunc f, OFunc g => N.eqb f g
   | OBuiltin f, OBuiltin g => N.eqb f g
   | OBound x, OBound y => pyobj_eqb x y
-  | OWrapper x, OWrapper y => pyobj_eqb x y
+  | OWrapper _ x, OWrapper _ y => pyobj_eqb x y
   | OProperty g s d, OProperty g' s' d' =>
       match g, g' with
       | Some x, Some y => pyobj_eqb x y
@@ -523,22 +524,49 @@ Definition maybe_decode_type (e : option json) : result (option ty) :=
 
 (* inspect.unwrap *)
 Fixpoint unwrap (o : pyobj) : pyobj :=
-  match o with OWrapper i => unwrap i | _ => o end.
+  match o with OWrapper _ i => unwrap i | _ => o end.
 
-(* util.get_func_in_module (django's cached_property is not installed here: compat.cached_property is None) *)
+(* the __module__ / __qualname__ the objects themselves carry *)
+Variable ocname : cls -> string * string.
+Variable ofname : fid -> string * string.
+
+(* getattr(func, "__qualname__", <absent>) *)
+Fixpoint obj_qualname (o : pyobj) : result (option string) :=
+  match o with
+  | OFunc f | OBuiltin f => Ok (Some (snd (ofname f)))
+  | OClass c => Ok (Some (snd (ocname c)))
+  | OBound i => obj_qualname i            (* a bound method answers with its __func__'s attributes *)
+  | OProperty _ _ _ => Ok None            (* property objects have no __qualname__ (CPython 3.12) *)
+  | OWrapper qn _ => Ok qn
+  | OOther qn => Ok qn
+  | OAny | OGen _ => OutOfModel
+  end.
+
+(* the kind steps of util.get_func_in_module after inspect.unwrap
+   (django's cached_property is not installed here: compat.cached_property is None) *)
+Definition func_of_kind (o : pyobj) : result pyobj :=
+  match o with
+  | OBound f => Ok f
+  | OProperty (Some g) false false => Ok g
+  | OProperty _ _ _ => Raises InvalidTypeError
+  | OFunc f => Ok (OFunc f)
+  | OBuiltin f => Ok (OBuiltin f)
+  | _ => Raises InvalidTypeError
+  end.
+
+(* util.get_func_in_module.  Last step (commit 7b578c3): the function found must carry the RECORDED qualified name;
+   a name that is now bound to some other function is a stale row (InvalidTypeError), not that other function. *)
 Definition get_func_in_module (m q : string) : result pyobj :=
   match env m q with
   | LNoModule | LNoAttr => Raises NameLookupError
   | LUnknown => OutOfModel
   | LFound o =>
-      match unwrap o with
-      | OBound f => Ok f
-      | OProperty (Some g) false false => Ok g
-      | OProperty _ _ _ => Raises InvalidTypeError
-      | OFunc f => Ok (OFunc f)
-      | OBuiltin f => Ok (OBuiltin f)
-      | _ => Raises InvalidTypeError
-      end
+      rbind (func_of_kind (unwrap o)) (fun func =>
+      rbind (obj_qualname func) (fun qn =>
+      match qn with
+      | Some own => if String.eqb own q then Ok func else Raises InvalidTypeError
+      | None => Ok func                    (* getattr(func, "__qualname__", qualname) falls back to qualname *)
+      end))
   end.
 End Decode.
 
@@ -588,7 +616,7 @@ Definition from_trace (t : trace) : result row :=
   Ok (Row (fst (fname (tr_func t))) (snd (fname (tr_func t))) a r y)))).
 
 Definition to_trace (r : row) : result dtrace :=
-  rbind (get_func_in_module env (r_module r) (r_qualname r)) (fun f =>
+  rbind (get_func_in_module env cname fname (r_module r) (r_qualname r)) (fun f =>
   rbind (arg_types_from_json env hidden (r_args r)) (fun a =>
   rbind (maybe_decode_type env hidden (r_ret r)) (fun rt =>
   rbind (maybe_decode_type env hidden (r_yield r)) (fun y =>
@@ -606,7 +634,7 @@ Definition importableb (c : cls) : bool :=
   end.
 
 Definition importable_funcb (f : fid) : bool :=
-  match get_func_in_module env (fst (fname f)) (snd (fname f)) with
+  match get_func_in_module env cname fname (fst (fname f)) (snd (fname f)) with
   | Ok (OFunc f') => N.eqb f f'
   | _ => false
   end.
